@@ -53,7 +53,7 @@ Lemma rl_sim_argument f c : rl_sim (rg_starts (rg_is TkName)) (g_argument f c) (
 Proof.
   unfold g_argument, rgl_argument. cbn [rgl_arg_novalue rgl_parser rgl_colon_then]. apply rl_sim_node.
   apply rl_sim_bind; [apply rl_sim_any, rl_sim_name|intros _].
-  apply (rl_sim_if_peek TkColon); [discriminate|].
+  apply (rl_sim_peek_else_err TkColon); [discriminate| |apply rl_requires_seq_sat].
   apply rl_sim_bind; [apply rl_sim_bump|intros _; apply rl_sim_value].
 Qed.
 
